@@ -40,6 +40,7 @@ func main() {
 			rep.Dist("group:" + in.Name)
 			rep.DistN("ops", len(p.Ops))
 			rep.DistN("unknown-log-points", p.NPick)
+			rep.DistN("receiver-is-existing-object", p.NInPlace)
 			if k == 0 && id%7 == 0 {
 				rep.Sample(desc)
 			}
